@@ -83,6 +83,14 @@ def session(concepts, seed, sid):
         rec('relations-unary', lambda: repr(ctx.relations(include_unary=True)))
         rec('relations-text', lambda: ctx.relations().tostring())
         rec('graphviz', lambda: ''.join(lat.graphviz().body))
+        # short-lived label callables, one export after the other (whatever is remembered about a callable
+        # must not outlive it: the next one may live at the same address, or not - per process)
+        for tag_ in ('A', 'B', 'C'):
+            junk = [object() for _ in range(rng.randint(0, 3))]
+            rec(f'graphviz-lambda-{tag_}', lambda: ''.join(lat.graphviz(
+                make_object_label=lambda ns, t=tag_: t + ':' + '+'.join(ns),
+                make_property_label=lambda ns, t=tag_: t.lower() + ':' + '&'.join(ns)).body))
+            del junk
         rec('definition', lambda: repr(ctx.definition()))
         rec('fromdict-roundtrip', lambda: str(C.fromdict(ctx.todict()).lattice))
         rec('fromdict-raw', lambda: str(C.fromdict(ctx.todict(), raw=True).lattice))
